@@ -191,6 +191,22 @@ def _wraps_body(sigparams, mode, target_idx, with_default):
             got = call(w, args, kws, is_async)
             if exp != got:
                 return fail('call_behaviour_differs', '%s call args=%r kws=%r: wrapper %r original %r' % (tag, args, kws, got, exp))
+        if mode == 'plain':
+            # stacked wrappers: wrapping the wrapper again must point at the wrapper, not at the innermost function
+            if is_async:
+                async def inner2(*a, **k):
+                    return await w(*a, **k)
+            else:
+                def inner2(*a, **k):
+                    return w(*a, **k)
+            w2 = wraps(w)(inner2)
+            if getattr(w2, '__wrapped__', None) is not w:
+                return fail('wrapped_attribute_of_stacked_wrapper', tag)
+            if inspect.signature(w2, follow_wrapped=False) != sig_f or w2.__name__ != f.__name__:
+                return fail('stacked_wrapper_signature', tag)
+            for args, kws in list(all_call_shapes())[::5]:
+                if call(f, args, kws, is_async) != call(w2, args, kws, is_async):
+                    return fail('stacked_wrapper_call_behaviour', '%s call args=%r kws=%r' % (tag, args, kws))
         return done(True, kind='plain', sig=src.splitlines()[0])
     if mode == 'injected':
         real = [n for n in names if sig_f.parameters[n].kind in (inspect.Parameter.POSITIONAL_OR_KEYWORD, inspect.Parameter.KEYWORD_ONLY)]
